@@ -19,6 +19,7 @@ import (
 	"github.com/tetratelabs/wazero/verifharness/registry"
 	"github.com/tetratelabs/wazero/verifharness/sysdef"
 	"github.com/tetratelabs/wazero/verifharness/termination"
+	"github.com/tetratelabs/wazero/verifharness/waitnotify"
 	"github.com/tetratelabs/wazero/verifharness/wasifs"
 	"github.com/tetratelabs/wazero/verifharness/wasisafe"
 	"github.com/tetratelabs/wazero/verifharness/wexec"
@@ -56,6 +57,8 @@ var cmds = map[string]func([]string){
 	"lifecycle-child":       lifecycle.Child,
 	"numeric-cases":         numeric.Cases,
 	"numeric-check":         numeric.Check,
+	"gate-waitnotify":       waitnotify.Gate,
+	"trace-waitnotify":      waitnotify.Trace,
 	"wexec-shrink":          wexec.Shrink,
 	"wexec-diff":            wexec.MainDiff,
 	"wexec-diff-child":      wexec.ChildDiff,
